@@ -1032,12 +1032,18 @@ func caseSlowLink(res *results, name string, rng *rand.Rand) {
 		c.a.send(w, r, makePayload(40, r.ID, w.mask))
 	}
 	// multi-packet messages on the victim topic: each packet waits for a slot
+	// a refusal at the first packet leaves nothing behind; one at a later packet does. Which it was cannot be
+	// seen from the result of Send, so a second refusal is awaited (the message after a half-queued one is
+	// glued to it whether it is accepted or not).
 	refused := 0
-	for i := 0; i < 3 && refused == 0; i++ {
+	for i := 0; i < 4 && refused < 2; i++ {
 		r := w.newRec(a.idx, b.idx, victim, 2, i, 0, "direct")
-		c.a.send(w, r, makePayload(8*chunk+11, r.ID, w.mask))
+		c.a.send(w, r, makePayload(4*chunk+11, r.ID, w.mask))
 		if r.ok.Load() == 2 {
 			refused++
+		}
+		if w.connDead(c.a) {
+			break
 		}
 	}
 	c.lk.setRateAB(0)
@@ -1051,7 +1057,7 @@ func caseSlowLink(res *results, name string, rng *rand.Rand) {
 	w.evaluate(evalOpts{complete: true, ordered: true})
 	res.eval(1)
 	res.count("slow_link_sends_refused_midway_or_before", int64(refused))
-	if refused > 0 {
+	if refused > 0 && w.unplanned == 0 {
 		res.distinct("slow-link/" + name)
 	}
 }
